@@ -51,16 +51,27 @@ def u_bragg_python(ctx):
 
 
 def l_bragg_spec():
-    """reference geometry: |kvec(d)|^2 * lambda^2 == 2 (1 - d_x/|d|); with cos(tth) = d_x/|d| (T2) and the half angle (T3) this is
-    4 sin^2(theta); and |gvec|^2 == |kvec|^2 by lemma rotation_preserves_norm (independent of omega, wedge, chi, omega sign)"""
+    """reference geometry: |kvec(d) * lambda|^2 == 2 (1 - d_x/|d|), in three steps (u = d/|d| is a unit vector; k.lambda = u - e_x;
+    hence the claim).  With cos(tth) = d_x/|d| (T2) and the half angle (T3) this is (2 sin(theta))^2.
+    |gvec|^2 == |kvec|^2 by lemma rotation_preserves_norm (so independent of omega, wedge, chi and the omega sign)."""
     K.MODE = "sym"
     K.SINK.reset()
     d = [z3.Real("dx"), z3.Real("dy"), z3.Real("dz")]
     lam = z3.Real("wvln")
     R = smt.sqrt_f(d[0] * d[0] + d[1] * d[1] + d[2] * d[2])
     k = G.kvec(d, lam)
-    hyp = [R > 0, R * R == d[0] * d[0] + d[1] * d[1] + d[2] * d[2], lam != 0] + K.SINK.drain()
-    out = [("kk", hyp, G.dot3(k, k) * lam * lam == 2 * (1 - d[0] / R))]
+    ax = K.SINK.drain()
+    base = [R > 0, R * R == d[0] * d[0] + d[1] * d[1] + d[2] * d[2], lam != 0]
+    u = [d[i] / R for i in range(3)]
+    e = [1, 0, 0]
+    out = [("u_is_unit", base, u[0] * u[0] + u[1] * u[1] + u[2] * u[2] == 1)]
+    kl = []
+    for i in range(3):
+        out.append(("k%d_lambda" % i, base + ax, k[i] * lam == u[i] - e[i]))
+        kl.append(k[i] * lam == u[i] - e[i])
+    kls = [k[i] * lam for i in range(3)]
+    out.append(("kk", [u[0] * u[0] + u[1] * u[1] + u[2] * u[2] == 1] + kl,
+                kls[0] * kls[0] + kls[1] * kls[1] + kls[2] * kls[2] == 2 * (1 - u[0])))
     steps, g = norm_steps(k, z3.Real("omega"), z3.Real("wedge"), z3.Real("chi"))
     out.append(("gg", steps + K.SINK.drain(), G.dot3(g, g) == G.dot3(k, k)))
     return out
